@@ -341,6 +341,47 @@ def run(ctx, case):
             continue
         if s1 != "ok":
             continue
+        if _ == 0 and kind not in ("Source", "PMux"):
+            # the caller's own numpy arrays as table data: the component must keep the values it was GIVEN - the caller
+            # flipping the sign of its array afterwards (to build the next variant) must change neither the arrays'
+            # past consumer nor, of course, make an accepted component show negative loss in a later solve
+            import numpy as np
+
+            # (1-D tables only: the 2-D constructors concatenate the axes as Python lists and do not take arrays)
+            tz = [z_ for (k_, z_) in TABLE_PARAMS if k_ == kind and isinstance(pos.get(z_), dict) and len(pos[z_]["vi"]) == 1]
+            if tz:
+                z_ = tz[0]
+                t_ = pos[z_]
+                arrs = {"io": np.array(t_["io"], dtype=float), z_: np.array(t_[z_], dtype=float)}
+                given = {k_: v_.copy() for k_, v_ in arrs.items()}
+                a_np = dict(pos, **{z_: {"vi": t_["vi"], "io": arrs["io"], z_: arrs[z_]}})
+                st_n, comp_n = H.call(ns.KINDS[kind], "X", **a_np)
+                ctx.check("accept.valid", st_n == "ok", {"kind": kind, "table_as": "numpy arrays", "outcome": "" if st_n == "ok" else H.exc_sig(comp_n)})
+                if st_n == "ok":
+                    same = all(np.array_equal(arrs[k_], given[k_]) for k_ in arrs)
+                    ctx.check("sign.same_behaviour", same, dict(det, table_as="numpy arrays", why="the constructor changed the caller's arrays",
+                                                                 given={k_: v_.tolist() for k_, v_ in given.items()},
+                                                                 now={k_: v_.tolist() for k_, v_ in arrs.items()}))
+
+                    def _mk():
+                        so_ = ns.System("p", ns.KINDS["Source"]("S", vo=V))
+                        so_.add_comp("S", comp=comp_n)
+                        if kind not in S.LOADS:
+                            so_.add_comp("X", comp=ns.KINDS["ILoad"]("L", ii=I))
+                        return so_
+
+                    st_b, so_n = H.call(_mk)
+                    if st_b == "ok":
+                        sa, da = H.solve(so_n)
+                        arrs[z_] *= -1.0       # the caller re-uses its array for the "negative sign" variant ...
+                        arrs["io"] *= 3.0      # ... and for another current axis
+                        sb, db = H.solve(so_n)
+                        if sa == "ok":
+                            diffs = H.frames_equal(da, db) if sb == "ok" else [("second solve raised", H.exc_sig(db))]
+                            ctx.check("sign.same_behaviour", not diffs,
+                                      dict(det, table_as="numpy arrays", why="the component follows later in-place edits of the caller's arrays",
+                                           differences=diffs[:4]))
+                    ctx.count("table_object", "numpy arrays, edited in place afterwards")
         if case["negate"]:
             diffs = H.frames_equal(d1, d2)
             ctx.check("sign.same_behaviour", not diffs, dict(det, differences=diffs[:5]))
